@@ -24,4 +24,19 @@ let run toks =
           (f (unordered_eq a a)) (f (value_eqb a b)),
         Printf.sprintf "ab=%s ba=%s asu=%s wrap=%s refl=1 eq=%s" (f s) (f s) (f s) (f s) (f (value_eqb a b)))
      | _ -> raise (Bad_case "u"))
+  | "uh" :: _ :: ops ->
+    let rec split acc = function
+      | "/" :: r -> (List.rev acc, r)
+      | x :: r -> split (x :: acc) r
+      | [] -> raise (Bad_case "uh") in
+    let (ops1, ops2) = split [] ops in
+    let runh ops = List.fold_left (fun o op -> fst (Fam_object.apply o op)) empty_obj ops in
+    (try
+       let a = VObj (runh ops1).entries and b = VObj (runh ops2).entries in
+       let f x = tok_of_bool x in
+       let s = value_eqb (norm a) (norm b) in
+       (Printf.sprintf "ab=%s ba=%s low=1 refl=%s eq=%s" (f (unordered_eq a b)) (f (unordered_eq b a))
+          (f (unordered_eq a a)) (f (value_eqb a b)),
+        Printf.sprintf "ab=%s ba=%s low=1 refl=1 eq=%s" (f s) (f s) (f (value_eqb a b)))
+     with Fam_object.Model_panic -> ("MODEL-PANIC", ""))
   | _ -> raise (Bad_case "u")
